@@ -67,6 +67,7 @@ type c10Val struct {
 	Fn     *ast.FuncDecl // c10VFunc: a named package-level function used as a value
 	Cap    c10Env        // c10VFunc: environment at the literal
 	Tag    string        // opaque sort key "elem|accessor" (order decided by c10Eval.rel)
+	Bytes  bool          // the text is the content of a []byte (c10_interp_bytes.go)
 	Len    bool          // the integer is the length of a slice (arity bookkeeping)
 	Why    string
 }
